@@ -78,6 +78,10 @@ pub struct Case {
     /// the last entry of `bufs_in` is not a node of its own: it is input 0 again, connected by a second (parallel) edge
     #[serde(default)]
     pub dup_last: bool,
+    /// GraphNode without outer inputs: the inner graph nevertheless designates this many input nodes (nothing is connected
+    /// to them) and has a generator of its own feeding the sum
+    #[serde(default)]
+    pub orphan_inputs: u8,
 }
 
 /// 2^e as f32, e in -149..=127
@@ -93,7 +97,8 @@ fn pow2(e: i16) -> f32 {
 fn val(c: &Case, node: usize, b: usize, i: usize, call: usize) -> f32 {
     let node = if c.dup_last && node + 1 == c.bufs_in.len() { 0 } else { node };
     if c.sparse && (call * LEN + i + node * 5 + b * 3) % 193 != c.salt as usize % 193 {
-        return 0.0;
+        // silence comes with either sign: a copy must deliver the sign it was given
+        return if (call + node + b + i) % 3 == 0 { -0.0 } else { 0.0 };
     }
     let k = ((node * 31 + b * 17 + i * 7 + call * 13 + c.salt as usize) % 257) as i32 - 128;
     let k = if c.sparse && k == 0 { 64 } else { k };
@@ -247,10 +252,24 @@ fn mk_inner(c: &Case) -> (Inner, Vec<NodeIndex>, NodeIndex) {
     let mut g: Inner = Graph::with_capacity(0, 0);
     let sum = g.add_node(NodeData::boxed(Sum, vec![Buffer::SILENT; c.inner_bufs]));
     let mut ins = Vec::new();
-    for _ in 0..c.bufs_in.len() {
+    for _ in 0..c.bufs_in.len() + c.orphan_inputs as usize {
         let n = g.add_node(NodeData::boxed(Pass, vec![Buffer::SILENT; c.inner_bufs]));
         g.add_edge(n, sum, ());
         ins.push(n);
+    }
+    if c.orphan_inputs > 0 {
+        let mut k = 0usize;
+        let salt = c.salt as usize;
+        let gen: Box<dyn FnMut(&[Input], &mut [Buffer])> = Box::new(move |_i, o| {
+            for (b, buf) in o.iter_mut().enumerate() {
+                for (i, x) in buf.iter_mut().enumerate() {
+                    *x = ((k * 7 + i * 3 + b + salt) % 17) as f32 / 16.0 - 0.5;
+                }
+            }
+            k += 1;
+        });
+        let n = g.add_node(NodeData::boxed(gen, vec![Buffer::SILENT; c.inner_bufs]));
+        g.add_edge(n, sum, ());
     }
     let out = match c.inner_kind % 3 {
         0 => sum,
@@ -280,6 +299,8 @@ pub fn check(c0: &Case, st: &mut Stats) -> CheckResult {
     ensure!(c.calls >= 1 && c.bufs_in.len() <= 8 && c.n_out <= 6, "bad case");
     ensure!(!c.dup_last || (c.bufs_in.len() >= 2 && c.bufs_in[0] == c.bufs_in[c.bufs_in.len() - 1] && c.kind != Kind::GraphNode), "bad case: parallel edge needs two equal entries");
     st.class_if(c.dup_last, "the same source connected by two parallel edges");
+    ensure!(c.orphan_inputs == 0 || (c.kind == Kind::GraphNode && c.bufs_in.is_empty()), "bad case: orphan inputs are for a nested graph without outer inputs");
+    st.class_if(c.orphan_inputs > 0, "nested graph with designated input nodes that nothing is connected to");
     let n_in = c.bufs_in.len();
     let mismatched = c.bufs_in.iter().any(|&b| b != c.n_out);
     let stateful = matches!(c.kind, Kind::Delay | Kind::Signal);
@@ -385,7 +406,7 @@ pub fn check(c0: &Case, st: &mut Stats) -> CheckResult {
                 (0..c.n_out).all(|ch| {
                     let got = &outs[call][ch];
                     if ch < c.bufs_in[j] {
-                        (0..LEN).all(|i| got[i] == in_val(j, ch, i, call))
+                        (0..LEN).all(|i| got[i].to_bits() == in_val(j, ch, i, call).to_bits())
                     } else {
                         f32s_eq(got, &sentinel(ch))
                     }
@@ -418,7 +439,7 @@ pub fn check(c0: &Case, st: &mut Stats) -> CheckResult {
                 Kind::Pass => {
                     if n_in == 1 && ch < c.bufs_in[0] {
                         for i in 0..LEN {
-                            ensure!(got[i] == in_val(0, ch, i, call), "Pass: call {} output {} sample {} = {}, input sample {}", call, ch, i, got[i], in_val(0, ch, i, call));
+                            ensure!(got[i].to_bits() == in_val(0, ch, i, call).to_bits(), "Pass: call {} output {} sample {} = {:?}, input sample {:?} (compared bit for bit)", call, ch, i, got[i], in_val(0, ch, i, call));
                         }
                     } else {
                         ensure!(f32s_eq(got, &sentinel(ch)), "Pass: call {}: surplus output buffer {} was modified", call, ch);
@@ -430,7 +451,7 @@ pub fn check(c0: &Case, st: &mut Stats) -> CheckResult {
                         for i in 0..LEN {
                             fifo[ch].push_back(in_val(0, ch, i, call));
                             let exp = fifo[ch].pop_front().unwrap();
-                            ensure!(got[i] == exp, "Delay: call {} channel {} sample {} = {}, the input {} samples earlier was {}", call, ch, i, got[i], c.delay_lens[ch].max(1), exp);
+                            ensure!(got[i].to_bits() == exp.to_bits(), "Delay: call {} channel {} sample {} = {:?}, the input {} samples earlier was {:?} (compared bit for bit)", call, ch, i, got[i], c.delay_lens[ch].max(1), exp);
                         }
                     } else {
                         ensure!(f32s_eq(got, &sentinel(ch)), "Delay: call {}: output buffer {} without a matching input channel / ring was modified", call, ch);
@@ -455,7 +476,7 @@ pub fn check(c0: &Case, st: &mut Stats) -> CheckResult {
         }
         if let Some(((g, ins, out), p)) = direct.as_mut() {
             // process the same inner graph directly: copy the outer inputs into the designated input nodes
-            for (j, &n) in ins.iter().enumerate() {
+            for (j, &n) in ins.iter().enumerate().take(n_in) {
                 for b in 0..c.inner_bufs.min(c.bufs_in[j]) {
                     for i in 0..LEN {
                         g[n].buffers[b][i] = in_val(j, b, i, call);
@@ -518,7 +539,8 @@ pub fn case_strategy() -> impl Strategy<Value = Case> {
                     let l = bufs_in.len();
                     bufs_in[l - 1] = bufs_in[0];
                 }
-                Case { kind, wrapper: WRAPPERS[w], bufs_in, n_out, calls, exact, delay_lens, sig_channels, inner_bufs, salt: salt % 10_000, sig_len, inner_kind, scale_exp, self_loop, sparse, dup_last }
+                let orphan_inputs = if kind == Kind::GraphNode && bufs_in.is_empty() { (salt % 3) as u8 } else { 0 };
+                Case { kind, wrapper: WRAPPERS[w], bufs_in, n_out, calls, exact, delay_lens, sig_channels, inner_bufs, salt: salt % 10_000, sig_len, inner_kind, scale_exp, self_loop, sparse, dup_last, orphan_inputs }
             })
     })
 }
@@ -534,6 +556,7 @@ pub fn run(ctx: &mut Ctx) {
         ctx.require_class(c);
     }
     ctx.require_class("the same source connected by two parallel edges");
+    ctx.require_class("nested graph with designated input nodes that nothing is connected to");
     ctx.prop("random-configurations", ctx.pick(40_000, 400_000), case_strategy(), check);
     // every kind x every wrapper x a few channel layouts
     let mut cases = Vec::new();
@@ -555,7 +578,7 @@ pub fn run(ctx: &mut Ctx) {
                             continue;
                         }
                         cases.push(Case { kind, wrapper, bufs_in: bufs_in.clone(), n_out, calls: 4, exact, delay_lens: vec![64, 5, 100], sig_channels: 2, inner_bufs: 2, salt: 7,
-                            sig_len: [None, Some(100), Some(64)][variant as usize], inner_kind: variant, scale_exp, self_loop: (scale_exp.unsigned_abs() / 10 % 3) as u8, sparse: scale_exp == -30, dup_last: bufs_in == vec![2, 2, 2] && !exact && !matches!(kind, Kind::GraphNode | Kind::Signal | Kind::Delay) });
+                            sig_len: [None, Some(100), Some(64)][variant as usize], inner_kind: variant, scale_exp, self_loop: (scale_exp.unsigned_abs() / 10 % 3) as u8, sparse: scale_exp == -30, dup_last: bufs_in == vec![2, 2, 2] && !exact && !matches!(kind, Kind::GraphNode | Kind::Signal | Kind::Delay), orphan_inputs: if kind == Kind::GraphNode && bufs_in.is_empty() { 1 + (variant % 2) } else { 0 } });
                     }
                 }
             }
